@@ -7,5 +7,5 @@ Extraction Language OCaml.
 Extraction "verilog_model.ml" get_wires write_brackets read_brackets write_decl populate
   group write_concat read_concat read_piece sort_desc align
   update_cable update_port new_bundle item_at
-  is_pinset_concatenated write_plain_port emit_port read_port reader_expr expr_bits read_assign write_assign elect
+  is_pinset_concatenated write_plain_port emit_port read_port reader_expr expr_bits read_assign write_assign brk_atom elect
   elab.
